@@ -46,6 +46,16 @@ def pool(tier):
           mkcfg("DiskRevolve", max_n=4, ram=1, uf=1, ub=3, wd=2, rd=2), mkcfg("DiskRevolve", max_n=4, ram=1, uf=1, ub=1, wd=2, rd=2),
           mkcfg("HRevolve", max_n=7, ram=1, disk=1, uf=1, ub=3, wd=2, rd=2),
           mkcfg("Revolve", max_n=6, ram=2, uf=1, ub=3, wd=2, rd=2)]
+    # different table shapes (few steps / many units, many steps / few units, in between) and mixed
+    # splits whose allocation depends on the trajectory
+    p += [mkcfg("Revolve", max_n=10, ram=8), mkcfg("Revolve", max_n=30, ram=3), mkcfg("Revolve", max_n=30, ram=6),
+          mkcfg("DiskRevolve", max_n=10, ram=6), mkcfg("DiskRevolve", max_n=24, ram=2), mkcfg("DiskRevolve", max_n=24, ram=4),
+          mkcfg("Mixed", max_n=8, ram=7, st=1), mkcfg("Mixed", max_n=20, ram=2, st=1), mkcfg("Mixed", max_n=20, ram=5, st=1),
+          mkcfg("Multistage", max_n=8, ram=0, disk=7), mkcfg("Multistage", max_n=20, ram=0, disk=2),
+          mkcfg("Multistage", max_n=20, ram=0, disk=5),
+          mkcfg("Multistage", max_n=10, ram=2, disk=3, traj=1), mkcfg("Multistage", max_n=12, ram=3, disk=3, traj=1),
+          mkcfg("Multistage", max_n=10, ram=1, disk=4, traj=1), mkcfg("HRevolve", max_n=16, ram=2, disk=2),
+          mkcfg("PeriodicDiskRevolve", max_n=20, ram=2)]
     if tier != "quick":
         p += [mkcfg("Multistage", max_n=20, ram=2, disk=2), mkcfg("Mixed", max_n=20, ram=3, st=0),
               mkcfg("Mixed", max_n=15, ram=4, st=1), mkcfg("HRevolve", max_n=12, ram=2, disk=2),
@@ -83,8 +93,9 @@ class Obj:
 
 
 def reference(cfg):
-    """Runs in a fresh interpreter: bare next() calls (and the canonical finalize)."""
-    o = Obj(cfg)
+    """Runs in a fresh interpreter: bare next() calls (and the canonical finalize); no observer
+    is read, nothing else is constructed."""
+    o = Obj(dict(cfg, bare=True))
     for _ in range(NREF):
         o.next()
     return o.d.trace()
@@ -171,6 +182,13 @@ def check(ctx):
     ex = gen(ctx, 2, 2, 5 if q else 6, 2, 2)
     sim = gen(ctx, len(cfgs), 3, 60, 14, 4, simulate=30 if q else 300, seed=ctx.seed)
     objs = replay(ex, cfgs, 0) + replay(sim, cfgs, 0)
+    # observer reads must not matter: for EVERY configuration of the pool, all observers are read
+    # before the first action and after every action
+    obsh = []
+    for i in range(len(cfgs)):
+        obsh.append([[1, i + 1], [3, 1]] + [[2, 1], [3, 1]] * 40)
+        obsh.append([[1, i + 1], [3, 1]] + [[2, 1]] * 40)
+    objs += replay(obsh, cfgs, 0)
     # the same, over sub-pools of one class family each (objects of the same class meet often),
     # and exhaustively over two objects of ONE configuration (shared class-level state)
     fams = {}
@@ -223,6 +241,7 @@ def check(ctx):
            "pool_configurations": len(cfgs), "histories_exhaustive": len(ex),
            "exhaustive_box": f"2 configurations, 2 objects, depth {5 if q else 6}, 2 helper calls",
            "histories_simulated": len(sim), "simulated_depth": 60,
+           "histories_observer_reads_every_configuration": len(obsh),
            "histories_simulated_per_class_family": nsub, "histories_two_objects_one_configuration": ntwin,
            "samples": [{"history": ex[len(ex) // 2]}, {"history": sim[0][:25]}],
            "exhaustive": True,
